@@ -323,3 +323,160 @@ def c09_job(chk, rng, i):
             routes.add("rule_without_newline")
     return {"case": case, "configs": [cfg], "inputs": inputs, "skip_if": dangerous,
             "expect_build": expect_build, "features": sorted(routes)}
+
+
+# ---------------------------------------------------------------------------- C10
+def c10_job(chk, rng, i):
+    p = gen.default_profile()
+    p["nrules"] = (2, 8)
+    p["depth"] = 2
+    p["trail"] = 15
+    p["bol"] = 20
+    p["scs"] = rng.choice([0, 1, 2, 3])
+    g, case = base_case(chk, rng, p)
+    nsc = len(case["scs"])
+    nsrc = rng.choice([1, 2, 3, 4, 5])
+    # EOF rules: none / unqualified / some conditions / both
+    style = rng.below(4)
+    eofs = []
+
+    def eof_action(k):
+        t = rng.below(3)
+        if t == 0 or nsrc < 2:
+            return [("term",)]
+        if t == 1:
+            return [("ret", 0)]
+        # continue with a fresh source from inside the EOF action, once
+        return [("if", 900 + k, 100, 50, [("x", ("restart", rng.below(nsrc)))]),
+                ("term",)]
+    if style in (1, 3) and nsc > 1:
+        scs = sorted(rng.sample(range(nsc), rng.rint(1, nsc - 1)))
+        eofs.append({"scs": scs, "act": eof_action(1)})
+    if style in (2, 3):
+        eofs.append({"scs": None, "act": eof_action(2)})
+    # an EOF action that restarts and then falls into yyterminate would terminate anyway;
+    # restructure: restart => fall through (no terminate)
+    for e in eofs:
+        a = e["act"]
+        if len(a) == 2 and a[0][0] == "if":
+            e["act"] = [("if", a[0][1], 100, 50, [("x", ("restart", a[0][4][0][1][1])), ("ret", 33)]),
+                        ("term",)]
+    case["eofs"] = eofs
+    f = {"ret": 30, "begin": 40}
+    scripts.decorate(case, rng, f)
+    ctx = gen.ctx_of(case)
+    # yywrap: chain of sources, then stop
+    chain = list(range(1, nsrc))
+    rng.shuffle(chain)
+    ncont = rng.rint(0, len(chain))
+    case["wrap"] = [("next", s) for s in chain[:ncont]] + [("stop",)]
+    # after termination: new yyin / yyrestart, then continue (the documented post-EOF uses)
+    atend = []
+    for k in range(rng.rint(0, 3)):
+        ops = [(rng.choice(["newin", "restart"]), rng.below(nsrc))]
+        atend.append(ops)
+    case["driver"] = {"atend": atend}
+    if nsc > 1 and rng.chance(50):
+        scripts.driver_walk_scs(case, rng)
+    # wrap list must cover the additional exhaustions after restarts
+    case["wrap"] = case["wrap"] + [("stop",)] * 8
+    inputs = []
+    for k in range(10):
+        srcs = []
+        for j in range(nsrc):
+            t = rng.below(6)
+            if t == 0:
+                srcs.append(b"")
+            else:
+                s = g.make_input(case, ctx, maxlen=50)
+                if t == 1 and s.endswith(b"\n"):
+                    s = s[:-1]
+                srcs.append(s)
+        inputs.append({"sources": srcs, "sched": rng.choice([[0], [1], [2, 3], [5]])})
+    case["budget"] = {"events": 800}
+    fl = rotate(i, FLAV3)
+    tb = rotate(i // 3, ["", "-Cem", "-C", "-Cfe", "-CFe", "-Ca"])
+    cfg = {"flavour": fl, "flexargs": lib.tables_args(tb, 8),
+           "opts": {"interactive": rotate(i // 2, [None, True, False])
+                    if not ("f" in tb or "F" in tb) else False}}
+    feats = ["nsrc:%d" % nsrc, "eof_style:%d" % style]
+    return {"case": case, "configs": [cfg], "inputs": inputs, "skip_if": dangerous,
+            "expect_build": std_refusals(tb), "features": feats}
+
+
+# ---------------------------------------------------------------------------- C11
+def c11_job(chk, rng, i):
+    p = gen.default_profile()
+    p["nrules"] = (2, 7)
+    p["depth"] = 1
+    p["bol"] = 25
+    g, case = base_case(chk, rng, p)
+    nsrc = rng.rint(3, 6)
+    nstr = 8
+    nslot = 48 if i % 5 == 2 else rng.choice([4, 6, 12, 48])
+    kctr = [100]
+
+    def k():
+        kctr[0] += 1
+        return kctr[0]
+    used_str = [0]
+
+    def bufop():
+        t = rng.below(12)
+        if t < 2:
+            return ("gcreate", rng.rint(1, nslot - 1), rng.below(nsrc), rng.choice([0, 0, 16, 64]))
+        if t < 4:
+            return ("gswitch", rng.below(nslot))
+        if t < 6:
+            return ("gpush", rng.below(nslot))
+        if t < 7:
+            return ("gpop",)
+        if t < 8:
+            return ("gdelete", rng.below(nslot))
+        if t < 10 and used_str[0] < nstr:
+            si = used_str[0]
+            used_str[0] += 1
+            kind = rng.choice(["gscan_bytes", "gscan_string", "gscan_buffer"])
+            if kind == "gscan_buffer":
+                return (kind, rng.rint(1, nslot - 1), si, rng.chance(75))
+            return (kind, rng.rint(1, nslot - 1), si)
+        if t < 11:
+            return ("gflush", rng.below(nslot))
+        return ("gpush", rng.below(nslot))
+    for r in case["rules"]:
+        if r["act"] == "|":
+            r["act"] = []
+        ops = []
+        if rng.chance(25):
+            ops.append(("if", k(), 100, rng.choice([20, 40]), [("x", bufop())]))
+        if rng.chance(60):
+            ops.append(("if", k(), 100, rng.choice([30, 60]), [("ret", rng.rint(1, 9))]))
+        r["act"] = ops
+    after = []
+    for n in range(rng.rint(6, 30)):
+        after.append([("x", bufop()) for _ in range(rng.rint(1, 3))])
+    # deep nesting: beyond the initial buffer-stack allocation (1, grows in steps of 8)
+    if i % 5 == 2:
+        deep = []
+        for s in range(1, min(nslot, 30)):
+            deep.append(("x", ("gscan_bytes", s, s % nstr)))   # replaces the top ...
+            deep.append(("x", ("gpush", 0 if s == 1 else s - 1)))   # ... which is pushed again
+        after = [deep] + after
+    case["driver"] = {"init": [("open_buf", 0)], "after": after}
+    case["wrap"] = [("pop",)] * 60
+    case["opts"]["yylineno"] = (i % 3 == 0)
+    ctx = gen.ctx_of(case)
+    inputs = []
+    for n in range(8):
+        srcs = [g.make_input(case, ctx, maxlen=60) for _ in range(nsrc)]
+        strs = [g.make_input(case, ctx, maxlen=30) for _ in range(nstr)]
+        if rng.chance(50):
+            j = rng.below(nstr)
+            strs[j] = strs[j][:5] + b"\x00" + strs[j][5:]
+        inputs.append({"sources": srcs, "strings": strs,
+                       "sched": rng.choice([[0], [1], [2, 3], [7]])})
+    case["budget"] = {"events": 900}
+    fl = rotate(i, FLAV3)
+    cfg = {"flavour": fl, "flexargs": ()}
+    return {"case": case, "configs": [cfg], "inputs": inputs,
+            "features": ["nslot:%d" % nslot]}
